@@ -152,8 +152,22 @@ def run_history(spec, ops):
         return e
 
     opexc = []
+    stale = False
     last = observe(("init",))
     for op in ops:
+        # ("lazy", op): the operation is carried out but the list box is NOT rendered before the next one, as in an application
+        # that changes several things between two screen updates (a focus change still pending when the list is modified, ...)
+        lazy = op[0] == "lazy"
+        if lazy:
+            op = tuple(op[1])
+            stale = True
+        elif op[0] == "press" and stale:
+            # what a press is expected to hit is read off the view on screen: bring the screen up to date first
+            last = observe(("sync",))
+            if last["exc"]:
+                break
+        if not lazy:
+            stale = False
         size = (state["w"], state["h"])
         exc = ""
         click = None
@@ -228,6 +242,8 @@ def run_history(spec, ops):
                 # the list box's own view calculation (the one render() uses) gave up while handling input: judged like a
                 # rendering failure; exceptions of other kinds / from other calls stay DIVERGENCE
                 exc = "ListBoxError"
+        if lazy and not exc:
+            continue
         last = observe(op, exc, click)
         if last["exc"]:
             break
@@ -282,7 +298,8 @@ def random_ops(rng, n):
                     out.append([h, 1 if rng.random() < 0.6 else 0, -1])
                 return out
             ops.append((rng.choice(["iadd", "iadd", "setall"]), few()))
-    return ops
+    # several operations between two renderings
+    return [("lazy", o) if o[0] != "press" and rng.random() < 0.3 else o for o in ops]
 
 
 MC_CFG = """CONSTANTS MaxItems = {n} Heights = {{0, 1, 2, 3}} MaxH = {h} Depth = {d} Bad = "{bad}"
@@ -335,6 +352,18 @@ def run(chk):
                         base = {"items": [[1, 1, -1]] * n0, "w": 3, "h": 3, "walker": walker}
                         empty = ("clear",) if how == "clear" else ("setall", [])
                         traces.append(run_history(base, [("set_focus", f, None), empty, ("iadd", [[1, 1, -1]] * k), ("key", "down"), ("press", 0, 0)]))
+    # ---- directed: one or two focus changes still pending (no rendering in between) when an item is removed / inserted / replaced ----
+    for walker in ("focus", "simple", "plain"):
+        for n0 in (2, 4):
+            for f0 in range(n0):
+                for f1 in range(n0):
+                    for f2 in (None, *range(n0)):
+                        for change in [("delete", k) for k in range(n0)] + [("insert", 0, 1, 1, -1), ("replace", f0, 2, 1, 0), ("clear",)]:
+                            base = {"items": [[1, 1, -1]] * n0, "w": 3, "h": 3, "walker": walker}
+                            ops = [("set_focus", f0, None), ("lazy", ("set_focus", f1, None))]
+                            if f2 is not None:
+                                ops.append(("lazy", ("set_focus", f2, "above")))
+                            traces.append(run_history(base, [*ops, ("lazy", change), ("h", 3), ("key", "down")]))
     # ---- directed: every integer near the valid range as a focus position, on every walker, then a key ----
     for walker in ("focus", "simple", "plain"):
         for n0 in (0, 1, 3):
